@@ -154,6 +154,7 @@ type Tr struct {
 	predecls  []string
 	unfolded  map[string]bool
 	specErrs  []string
+	escalations int64 // obligations retried with a longer time limit
 	errAt     []int // number of obligations that existed when a contract clause failed to evaluate
 	clauseFilter func(c *clause) bool
 	usedContracts map[string]bool
